@@ -119,3 +119,27 @@ Example C04_merge_nonvacuous :
   = ["i"; "i_1"; "I_3"; "j"; "i_4"; "modvar"].
 Proof. exact flatten_nonvacuous. Qed.
 Print Assumptions C04_merge_nonvacuous.
+
+(* ---- inputs of a constant spelled out per feature (coq/C04/ArrayKind.v): the kind of an ARRAY-valued
+   parameter is an input of the dependency sort (its bounds and inquiry arguments are not) *)
+From PV Require Import C04.ArrayKind.
+Open Scope list_scope.
+Theorem C04_const_after_inputs : forall t l c d,
+    gen_decls t = Some l -> In c (sect CConst t) -> In d (s_deps c) -> In d (ids (sect CConst t)) ->
+    exists l1 l2, l = l1 ++ c :: l2 /\ In d (ids l1).
+Proof. exact const_after_inputs_. Qed.
+Print Assumptions C04_const_after_inputs.
+
+Theorem C04_array_constant_after_kind : forall t l id name c k,
+    gen_decls t = Some l -> ci_array c = true -> ci_kind c = Some k ->
+    In (mk_const id name c) t -> In k (ids (sect CConst t)) ->
+    exists l1 l2, l = l1 ++ mk_const id name c :: l2 /\ In k (ids l1).
+Proof. exact array_constant_after_kind_. Qed.
+Print Assumptions C04_array_constant_after_kind.
+
+Example C04_array_kind_nonvacuous :
+  let arr := mk_const 0 "arr" (mkCinfo true (Some 2) [] [] [2] []) in
+  let t := [arr; mkSym 1 "x" CVar [] [2]; mkSym 2 "wp" CConst [] []] in
+  In arr t /\ In 2 (ids (sect CConst t)) /\ option_map ids (gen_decls t) = Some [2; 0; 1].
+Proof. exact array_kind_nonvacuous. Qed.
+Print Assumptions C04_array_kind_nonvacuous.
